@@ -764,6 +764,69 @@ func runAll(c *run.Ctx) {
 	for i := 0; i < c.N(6000, 150000); i++ {
 		c.Case("geom", i, geomCase)
 	}
+	// rings with extra collinear (and repeated) control points on their edges, started at every vertex in
+	// both directions, as a shell and as a hole: orientation must follow the signed area, not a local turn
+	for i := 0; i < c.N(400, 4000); i++ {
+		c.Case("orient-collinear", i, func(k *run.K) {
+			r := k.Rng
+			w, h := float64(r.Range(2, 6)), float64(r.Range(2, 6))
+			corners := [][2]float64{{0, 0}, {w, 0}, {w, h}, {0, h}}
+			if r.Chance(1, 3) {
+				corners = [][2]float64{{0, 0}, {w, 0}, {0, h}}
+			}
+			var ring [][2]float64
+			for ci, a := range corners {
+				b := corners[(ci+1)%len(corners)]
+				ring = append(ring, a)
+				mm := r.Range(0, 2)
+				for j := 0; j < mm; j++ {
+					t := float64(j+1) / float64(mm+1)
+					ring = append(ring, [2]float64{a[0] + t*(b[0]-a[0]), a[1] + t*(b[1]-a[1])})
+					if r.Chance(1, 4) {
+						ring = append(ring, ring[len(ring)-1])
+					}
+				}
+			}
+			start := r.Intn(len(ring))
+			rot := append(append([][2]float64(nil), ring[start:]...), ring[:start]...)
+			if r.Bool() {
+				for a, b := 0, len(rot)-1; a < b; a, b = a+1, b-1 {
+					rot[a], rot[b] = rot[b], rot[a]
+				}
+			}
+			ox, oy := float64(r.Range(-3, 3)), float64(r.Range(-3, 3))
+			var fs []float64
+			for _, p := range rot {
+				fs = append(fs, p[0]+ox+10, p[1]+oy+10)
+			}
+			fs = append(fs, fs[0], fs[1])
+			inner := geom.NewLineStringXY(fs...)
+			var g geom.Geometry
+			if r.Bool() {
+				g = geom.NewPolygon([]geom.LineString{inner}).AsGeometry()
+			} else {
+				shell := geom.NewLineStringXY(0, 0, 40, 0, 40, 40, 0, 40, 0, 0)
+				if r.Bool() {
+					shell = shell.Reverse()
+				}
+				g = geom.NewPolygon([]geom.LineString{shell, inner}).AsGeometry()
+			}
+			switch r.Intn(3) {
+			case 1:
+				g = geom.NewMultiPolygon([]geom.Polygon{g.MustAsPolygon()}).AsGeometry()
+			case 2:
+				g = geom.NewGeometryCollection([]geom.Geometry{g}).AsGeometry()
+			}
+			k.In("g", g.AsText())
+			k.Nontrivial(g.AsText())
+			valid := exact.ValidGeom(g).OK
+			if !valid {
+				k.Count("orient_collinear_invalid_skipped", 1)
+				return
+			}
+			reverseAndOrient(k, g, treeOf(g), true)
+		})
+	}
 	// lines whose first / last segment has zero length
 	for i := 0; i < c.N(600, 10000); i++ {
 		c.Case("zero-length", i, func(k *run.K) {
